@@ -248,7 +248,8 @@ Preprocess ==
            \* returned for THIS SESSION (reconcile is a no-op: min_rates are still 0)
            bound(s) == IF opt.est /\ ses[s].est >= 0 THEN Min2(MaxP(s), ses[s].est) ELSE MaxP(s)
        IN /\ ub' = [s \in St |-> IF InSeq(s, keep) THEN bound(s) ELSE 0]
-          /\ dec' = Dec(\A s \in SeqRange(plug) : Cmp(Rem(s), MinP(s)) /\ ActiveSure(s))
+          /\ dec' = Dec(/\ \A s \in SeqRange(plug) : Cmp(Rem(s), MinP(s))
+                        /\ \A s \in St : Plugged(s) => ActiveSure(s))
           /\ IF opt.unint
              THEN /\ mq' = SortRemTime(keep) /\ actv' = SortRemTime(keep)   \* the list returned is the sorted one
                   /\ pc' = IF keep = <<>> THEN "sort" ELSE "min"
@@ -300,13 +301,17 @@ Sort ==
            start == [s \in St |-> IF ~InSeq(s, actv) THEN 0
                                   ELSE IF opt.algo = "greedy" THEN lb[s]
                                   ELSE IF L[s].n > 0 THEN LevelAt(L[s], 0) ELSE 0]
+           \* an observed schedule that charges a station whose session preprocessing removed
+           stray == Tracing /\ \E s \in St : ~InSeq(s, actv) /\ obs[s] # 0
        IN /\ queue' = q /\ lvl' = L /\ pilot' = start
+          /\ verdict' = IF stray THEN "sorted:pilot-for-removed-session" ELSE verdict
           /\ dec' = Dec(/\ Sure(start) /\ DistinctKeys(SeqRange(actv))
                         /\ \A s \in SeqRange(actv) : IsFin(s) => \A a \in SeqRange(Lv(s)) : Cmp(a, Rem(s)) /\ UbSure(s, a)
                         /\ \A s \in SeqRange(actv) : (Tracing /\ opt.algo = "rr" /\ ~IsFin(s)) => RRTopSure(s))
-          /\ pc' = IF ~Feasible(start) THEN "error" ELSE IF q = <<>> THEN "done" ELSE "serve"
+          /\ pc' = IF ~Feasible(start) THEN "error" ELSE IF stray THEN "reject"
+                   ELSE IF q = <<>> THEN "done" ELSE "serve"
           /\ hist' = Log([a |-> "sort", order |-> q, start |-> start])
-    /\ UNCHANGED <<net, ses, opt, obs, actv, lb, ub, mq, mrate, ridx, stopAt, served, verdict>>
+    /\ UNCHANGED <<net, ses, opt, obs, actv, lb, ub, mq, mrate, ridx, stopAt, served>>
 
 -----------------------------------------------------------------------------
 (* Greedy allocation *)
@@ -412,7 +417,7 @@ PLevels(p)    == \A s \in St : IF IsFin(s) THEN p[s] \in SeqRange(Lv(s))
 PDemand(p)    == \A s \in St : Plugged(s) => p[s] <= Rem(s) + Sl
 PEstimator(p) == opt.est => \A s \in St : (Plugged(s) /\ ses[s].est >= 0) =>
                      p[s] <= Max2(ses[s].est, IF opt.unint THEN MinP(s) ELSE 0) + Sl
-PInactive(p)  == \A s \in St : ~Active(s) => p[s] = 0
+PInactive(p)  == \A s \in St : (~Active(s) /\ ActiveSure(s)) => p[s] = 0   \* (an observed demand within a unit of 1e-3 kWh is not decidable)
 SafetyFails(p) ==
     (IF PFeasible(p) THEN {} ELSE {"OutputFeasible"}) \cup (IF PLevels(p) THEN {} ELSE {"LevelsAllowed"})
     \cup (IF PDemand(p) THEN {} ELSE {"WithinDemand"}) \cup (IF PEstimator(p) THEN {} ELSE {"WithinEstimatorOrMin"})
